@@ -34,6 +34,7 @@ class FaultPolicy(object):
         # latency), so that no stale copy of a request can execute after a
         # later request - see DESIGN.md section 7 items 1 and 13
         self.fifo_requests = fifo_requests
+        self.partitions = []       # [(start, end)] in virtual time
         self.active = True
 
     @classmethod
@@ -49,6 +50,8 @@ class FaultPolicy(object):
         # mode 0: none; 1: light (0-15 %); 2: heavy (30-60 %)
         if mode != 0:
             for kind in allowed:
+                if kind == "partition":
+                    continue
                 if tape.chance(0.55):
                     if mode == 1:
                         rates[kind] = tape.rng_range(1, 15) / 100.0
@@ -59,18 +62,40 @@ class FaultPolicy(object):
                 if kind in rates:
                     rates[kind] = min(rates[kind], 0.05) / 2.0
         jitter = tape.choice([0.0, 0.0005, 0.005])
-        return cls(rates, timeout=timeout, jitter=jitter,
-                   fifo_requests=fifo_requests)
+        pol = cls(rates, timeout=timeout, jitter=jitter,
+                  fifo_requests=fifo_requests)
+        # partitions: intervals of virtual time during which every datagram
+        # in either direction is lost, then the link heals by itself
+        if mode != 0 and "partition" in allowed and tape.chance(0.3):
+            t0 = 0.0
+            for _ in range(1 + tape.draw(2)):
+                t0 += timeout * (1 + tape.draw(40)) / 4.0
+                length = timeout * (1 + tape.draw(24)) / 4.0
+                pol.partitions.append((t0, t0 + length))
+                t0 += length
+        return pol
 
     def rate(self, kind):
         return self.rates.get(kind, 0.0) if self.active else 0.0
 
     def any_net(self):
-        return self.active and any(self.rates.get(k, 0) > 0
-                                   for k in ALL_NET_KINDS)
+        return self.active and (bool(self.partitions) or any(
+            self.rates.get(k, 0) > 0 for k in ALL_NET_KINDS))
 
     def describe(self):
-        return {k: round(v, 3) for k, v in sorted(self.rates.items())}
+        d = {k: round(v, 3) for k, v in sorted(self.rates.items())}
+        if self.partitions:
+            d["partitions"] = [(round(a, 3), round(b, 3))
+                               for a, b in self.partitions]
+        return d
+
+    def partitioned(self, now):
+        if not self.active:
+            return False
+        for a, b in self.partitions:
+            if a <= now < b:
+                return True
+        return False
 
     # -- per-datagram fates ------------------------------------------------
     def _latency(self, tape):
@@ -192,6 +217,10 @@ class SimNetwork(object):
         self.tx_count += 1
         if self.on_tx is not None:
             self.on_tx(sock, payload)
+        if self.policy.partitioned(self.sim.now):
+            self.world.fault("partition_drop")
+            self.policy.clock_fault(self.tape, self.world, self.sim)
+            return
         for delay in self.policy.request_fate(self.tape, self.world):
             self.sim.after(delay, self._deliver_request, sock, payload)
         self.policy.clock_fault(self.tape, self.world, self.sim)
@@ -204,6 +233,9 @@ class SimNetwork(object):
                                                                   extra), sock)
 
     def _send_reply(self, sock, data, extra=0.0):
+        if self.policy.partitioned(self.sim.now):
+            self.world.fault("partition_drop")
+            return
         for delay in self.policy.reply_fate(self.tape, self.world):
             self.sim.after(delay + extra, sock._arrive, data)
 
